@@ -204,6 +204,17 @@ fn esig_line(s: &ESig) -> String {
     format!("{}:{}:{}:{}", hex(&s.name), s.bits, s.typ, d)
 }
 
+/// the locations of a parse error returned by `load_test`, as a comment line (the model does not produce it)
+fn load_spans(tag: &str, r: &Result<digital_test_runner::TestCase, LoadTestError>) -> Option<String> {
+    match r {
+        Err(LoadTestError::ParseError(e)) => {
+            let v: Vec<String> = e.at.iter().map(|s| format!("({} {})", s.start, s.end)).collect();
+            Some(format!("# spans {tag} parse err [{}]", v.join(" ")))
+        }
+        _ => None,
+    }
+}
+
 fn load_line(tag: &str, r: Result<digital_test_runner::TestCase, LoadTestError>) -> String {
     match r {
         Ok(tc) => format!("{tag} ok signals={} {}", imp::dump_signals(&tc.signals), verif_hooks::dump_test_case(&tc)),
@@ -226,7 +237,12 @@ pub fn run_imp(xml: &str, names: &[String]) -> Vec<String> {
     out.push(format!("dig ok signals={} tests=[{}]", imp::dump_signals(&f.signals), tests.join(" ")));
     for i in 0..=f.test_cases.len() {
         match catch_unwind(AssertUnwindSafe(|| f.load_test(i))) {
-            Ok(r) => out.push(load_line(&format!("load {i}"), r)),
+            Ok(r) => {
+                if let Some(l) = load_spans(&format!("load {i}"), &r) {
+                    out.push(l);
+                }
+                out.push(load_line(&format!("load {i}"), r))
+            }
             Err(_) => out.push(format!("load {i} panic {}", imp::take_panic())),
         }
     }
@@ -332,6 +348,9 @@ pub fn gen_circuit(r: &mut Prng) -> Circuit {
         }
         if r.chance(1, 10) {
             src.push_str("loop(i,2)\n");
+        } else if r.chance(1, 10) {
+            // cut off inside a block or a statement, without a final newline
+            src.push_str(*r.pick(&["loop(i,2)", "while(1)\n", "let a = 1", "let é = ", "loop(i,2)\nend"]));
         }
         if r.chance(1, 20) {
             src = String::new();
@@ -339,7 +358,7 @@ pub fn gen_circuit(r: &mut Prng) -> Circuit {
         let label = match r.below(8) {
             0 => None,
             1 => Some(String::new()),
-            2 => Some("same".to_string()),
+            2 => Some((*r.pick(&["same", "same", "same ", " same", "same\t"])).to_string()),
             3 => Some((*r.pick(&["a<b&c", "Testdata", "Label", "dataString"])).to_string()),
             _ => Some(format!("test {k}")),
         };
@@ -406,6 +425,9 @@ pub fn suite_dig(ctx: &mut Ctx, suite: &str, n: u64) {
         }
         ctx.tick(&xml);
         let mut names: Vec<String> = circuit.tests.iter().filter_map(|t| t.label.clone()).collect();
+        // labels are compared verbatim: variants with blanks around them are other names
+        let variants: Vec<String> = names.iter().flat_map(|n| vec![format!("{n} "), format!(" {n}"), n.trim().to_string()]).collect();
+        names.extend(variants);
         names.push("(unnamed)".into());
         names.push("no such test".into());
         names.sort();
@@ -422,6 +444,12 @@ pub fn suite_dig(ctx: &mut Ctx, suite: &str, n: u64) {
         }
         if ctx.report.samples.len() < 2 && il[0].starts_with("dig ok") && !circuit.tests.is_empty() {
             ctx.report.samples.push(xml.clone());
+        }
+        // loading is a function of the text: a second load gives the same answer (C15)
+        let il2 = run_imp(&xml, &names);
+        if significant(&il2) != significant(&il) {
+            push(ctx, "oracle", suite, cs, format!("loading the same document twice gives different results: {}", crate::suites::first_diff_pub(&il, &il2)), &xml, &il, &il2);
+            continue;
         }
         if il.iter().any(|l| l.contains(" panic")) {
             push(ctx, "oracle", suite, cs, format!("loading panicked: {:?}", il.iter().find(|l| l.contains(" panic"))), &xml, &il, &[]);
@@ -450,6 +478,9 @@ pub fn suite_dig(ctx: &mut Ctx, suite: &str, n: u64) {
                     let want_sigs = format!("[{}]", sigs.iter().map(esig_line).collect::<Vec<_>>().join(" "));
                     let want_tests: Vec<String> = tests.iter().map(|(n, s)| format!("({} {})", hex(n), hex(s))).collect();
                     let want = format!("dig ok signals={want_sigs} tests=[{}]", want_tests.join(" "));
+                    // the lines the model knows (without the comment lines)
+                    let il_all = il.clone();
+                    let il: Vec<String> = significant(&il_all);
                     if il[0] != want {
                         push(ctx, "oracle", suite, cs, format!("the loaded interface is not the described one:\n got  {}\n want {want}", il[0]), &xml, &il, &m);
                     } else {
@@ -476,6 +507,19 @@ pub fn suite_dig(ctx: &mut Ctx, suite: &str, n: u64) {
                             }
                         };
                         for (i, (_, src)) in tests.iter().enumerate() {
+                            // a parse error of load_test points into the test's own source text (C09), and is the
+                            // error parsing that text gives
+                            let tag = format!("# spans load {i} ");
+                            if let Some(l) = il_all.iter().find(|l| l.starts_with(&tag)) {
+                                let l = &l[tag.len()..];
+                                if let Some(p) = crate::suites::span_problem_pub(src, l) {
+                                    push(ctx, "oracle", suite, cs, format!("parse error of load_test({i}): {p}"), &xml, &il, &m);
+                                }
+                                let (dl, _) = imp::parse_line(src);
+                                if dl != l {
+                                    push(ctx, "oracle", suite, cs, format!("load_test({i}) reports {l} but parsing source {i} reports {dl}"), &xml, &il, &m);
+                                }
+                            }
                             let want = direct(src, &format!("load {i}"));
                             if il.get(1 + i) != Some(&want) {
                                 push(ctx, "oracle", suite, cs, format!("load_test({i}) is not 'parse source {i}, bind to the file's signals':\n got  {:?}\n want {want}", il.get(1 + i)), &xml, &il, &m);
